@@ -128,8 +128,10 @@ def c19_explore(g, seed, budget):
 
 
 # ------------------------------------------------------------------------------------------------ C18
-def build_ir(g, variant=None):
-    """Independent construction of one fixed IR; `variant` = (path, value) perturbs a single compared field."""
+def build_ir(g, variant=None, shape=()):
+    """Independent construction of one fixed IR; `variant` = (path, value) perturbs a single compared field.
+    shape: "no_entry" (the module has no entry point), "loose_sym" (the symbol referenced by the symbolic expression
+    is not owned by any module, so it is compared only through the expression)."""
     k = itertools.count(10)
     ir = g.IR(uuid=U(next(k)))
     m = g.Module(name="mod", uuid=U(next(k)), ir=ir, binary_path="/bin/x", isa=g.Module.ISA.X64,
@@ -141,7 +143,9 @@ def build_ir(g, variant=None):
     p = g.ProxyBlock(uuid=U(next(k)), module=m)
     sym = g.Symbol(name="f", uuid=U(next(k)), payload=cb, module=m)
     sym2 = g.Symbol(name="v", uuid=U(next(k)), payload=0, module=m)
-    m.entry_point = cb
+    m.entry_point = None if "no_entry" in shape else cb
+    if "loose_sym" in shape:
+        sym.module = None
     bi.symbolic_expressions[2] = g.SymAddrConst(5, sym, {g.SymbolicExpression.Attribute.GOT})
     ir.cfg.add(g.Edge(cb, p, g.Edge.Label(g.Edge.Type.Call, False, True)))
     ir.aux_data["t"] = g.AuxData([1], "sequence<int64_t>")
@@ -250,8 +254,9 @@ def c18_check(g, case):
             errs.append("deep_eq not symmetric for %s vs %s: %r / %r" % (case["cross"][0], case["cross"][1],
                                                                         a.deep_eq(b), b.deep_eq(a)))
         return errs
-    base = build_ir(g)
-    other = build_ir(g, tuple(case["variant"]) if case.get("variant") else None)
+    shape = tuple(case.get("shape", ()))
+    base = build_ir(g, None, shape)
+    other = build_ir(g, tuple(case["variant"]) if case.get("variant") else None, shape)
     for name in base:
         x, y = base[name], other[name]
         if not x.deep_eq(x):
@@ -273,12 +278,18 @@ def c18_check(g, case):
             holder = "m"
         if holder and base[holder].deep_eq(other[holder]):
             errs.append("%s.deep_eq misses perturbation %r" % (holder, case["variant"]))
+        if "loose_sym" in shape and path.split(".")[0] == "sym" and base["bi"].deep_eq(other["bi"]):
+            errs.append("bi.deep_eq misses perturbation %r of a symbol referenced by its symbolic expression" % (case["variant"],))
     return errs
 
 
 def c18_explore(g, seed, budget):
     rng = random.Random(seed)
-    cases = [{"variant": None}] + [{"variant": list(v)} for v in VARIANTS]
+    cases = []
+    for shape in ((), ("no_entry",), ("loose_sym",), ("no_entry", "loose_sym")):
+        skip = lambda v: (v[0] == "m.entry_point" and "no_entry" in shape) or (v == ("remove", "sym2") and False)
+        cases += [{"variant": None, "shape": list(shape)}] + [{"variant": list(v), "shape": list(shape)} for v in VARIANTS
+                                                               if not skip(v)]
     kinds = ["DataBlock", "CodeBlock", "ByteBlock", "ProxyBlock", "Symbol", "Section", "ByteInterval", "Module", "IR"]
     cases += [{"cross": [a, b]} for a in kinds for b in kinds if a < b]
     n = 0
@@ -703,6 +714,9 @@ def c16_gen(rng):
     if kind == "set":
         op = rng.choice(["add", "discard", "remove", "pop", "clear", "update", "ior", "iand", "isub", "ixor", "or", "and", "sub",
                          "xor", "rand", "rsub", "rxor", "le", "ge", "eq", "lt", "gt", "isdisjoint", "contains"])
+        if op in ("discard", "remove", "contains") and rng.random() < 0.15:
+            # an element of another kind (never a member of this set, possibly owned by the same parent through a sibling set)
+            return [cname, op, rng.choice(["y0", "y1", "p0", "p1", "s0", "s1", "bi0", "b0", "m0"])]
         if op in ("add", "discard", "remove", "contains"):
             return [cname, op, rng.choice(names)]
         if op in ("pop", "clear"):
